@@ -149,6 +149,7 @@ struct Ctx {
 
 thread_local! {
     static CTX: RefCell<Option<Rc<Ctx>>> = const { RefCell::new(None) };
+    static FILL_ONE: Cell<bool> = const { Cell::new(false) };
 }
 
 fn ctx() -> Rc<Ctx> {
@@ -481,7 +482,12 @@ fn run<A: Adapter>(p: &Value, fill: bool) {
     // ---- optional: make the slab of the scripted objects full (vacancy bookkeeping path on removal)
     let mut fillers = Vec::new();
     if fill {
-        while pool.len() < pool.capacity() {
+        // "one": leave exactly one vacant slot (the trigger's insertion is the one that fills the slab - or fails to)
+        let one = FILL_ONE.with(Cell::get);
+        if pool.capacity() == 0 {
+            fillers.push(pool.insert(Obj::plain(FILLER)));
+        }
+        while pool.len() + usize::from(one) < pool.capacity() {
             let h = pool.insert(Obj::plain(FILLER));
             fillers.push(h);
         }
@@ -618,7 +624,8 @@ pub fn main(program: &str) {
     }));
     let v: Value = serde_json::from_str(program).expect("bad program json");
     let p = &v["prog"];
-    let fill = v["fill"].as_bool().unwrap_or(false);
+    let fill = v["fill"].as_bool().unwrap_or(false) || v["fill"] == "one";
+    FILL_ONE.with(|e| e.set(v["fill"] == "one"));
     ERASED.with(|e| e.set(v["erased"].as_bool().unwrap_or(false)));
     match v["pool"].as_str().unwrap() {
         "OpaquePool" => run::<AOpaque>(p, fill),
